@@ -585,9 +585,8 @@ class Rewriter:
                 return expr.context.constant(bool(value), like)
 
     def upcast(self, expr):
-        (x,) = expr.operands
-        if x.kind == "downcast":
-            return x.operands[0]
+        # upcast(downcast(x)) is NOT x: the downcast rounds (the converse, downcast(upcast(x)) == x, is exact)
+        pass
 
     def downcast(self, expr):
         (x,) = expr.operands
